@@ -212,8 +212,11 @@ def check_adaptive(case):
 def short_case(draw):
     c = draw(base_case(["euler", "rk4", "rkf54", "dopri54"], pframes=True))
     c["T_us"] = draw(go.uniform_int(-8 * c["h"] * 10**6, 8 * c["h"] * 10**6))
-    if draw(st.integers(0, 3)) == 0:  # on the grid
+    where = draw(st.integers(0, 3))
+    if where == 0:  # on the grid
         c["T_us"] = round(c["T_us"] / (c["h"] * 1e6)) * c["h"] * 10**6
+    elif where == 1:  # a few microseconds off an integration point: still its own instant, not the node's
+        c["T_us"] = round(c["T_us"] / (c["h"] * 1e6)) * c["h"] * 10**6 + draw(st.sampled_from([-1, 1])) * draw(st.integers(1, 300))
     c["back"] = c["T_us"] < 0
     return c
 
@@ -241,7 +244,27 @@ def check_short(case):
     bound = 3 * bound + 2.5 * a * (wp * h) ** 8 + 0.05
     if err > bound:
         raise Violation("short-target", f"{case['method']} h={h}s: target {T:.3f}s from the epoch is off by {err:.4g} m (> {bound:.4g} m)")
-    return dict(nt=abs(T) > 1e-3, cls=label_cls(case) + [case["method"], "backward" if T < 0 else "forward", "on-grid" if case["T_us"] % (h * 10**6) == 0 else "off-grid"],
+    # a date a few microseconds off an integration point is its own instant: the state there lies on the chord
+    # from the node's state to the state 1 ms further on, in proportion (all three come from the same table,
+    # so the integration error cancels - Euler's positions and velocities are inconsistent at O(h), hence
+    # positions only; what is left is the 0.6 us resolution of the re-sampling abscissa, 5 mm at 7.5 km/s)
+    hus = h * 10**6
+    node_us = round(case["T_us"] / hus) * hus
+    d_us = case["T_us"] - node_us
+    if 0 < abs(d_us) <= 300:
+        far_us = 1000 if d_us > 0 else -1000
+        node = pos(orb.propagate(mkdate(node_us)))
+        far = pos(orb.propagate(mkdate(node_us + far_us)))
+        speed = float(np.linalg.norm(far[:3] - node[:3])) / 1e-3
+        exp = node[:3] + (far[:3] - node[:3]) * (d_us / far_us)
+        off = float(np.linalg.norm(pos(res)[:3] - exp))
+        tol = 2.5e-6 * speed + 0.02 * speed * abs(d_us) * 1e-6 + 1e-3
+        if off > tol:
+            raise Violation("near-node", f"{case['method']} h={h}s: the state {d_us} us off the integration point at {node_us / 1e6:.0f}s "
+                            f"is {off:.4g} m off the chord from that point to the state 1 ms further (allowed {tol:.3g} m; "
+                            f"it should have moved by {speed * abs(d_us) * 1e-6:.4g} m)")
+    return dict(nt=abs(T) > 1e-3, cls=label_cls(case) + [case["method"], "backward" if T < 0 else "forward", "on-grid" if case["T_us"] % (h * 10**6) == 0 else
+                                         ("near-grid" if min(case["T_us"] % (h * 10**6), -case["T_us"] % (h * 10**6)) <= 300 else "off-grid")],
                 ratio=err / bound)
 
 
